@@ -414,7 +414,9 @@ class Ctx:
         self.notes = []
 
     def quick(self):
-        return self.tier == 'quick'
+        # escalated: a proof obligation of this property no longer checks on this tree, so the search for a concrete failing
+        # input runs with the thorough tier's bounds even in a quick run
+        return self.tier == 'quick' and not getattr(self, 'escalated', False)
 
     def count(self, key, n=1):
         self.stats[key] = self.stats.get(key, 0) + n
